@@ -74,3 +74,24 @@
         let b: u8 = kani::any();
         assert!(crc_increment(acc, &[b]) != 0x1234);
     }
+
+    // ---- logged contract stub for calc_crc, used by callers whose proof would not terminate with the real CRC.
+    // Contract used: "calc_crc(s) is some u16" (weaker than the proved contract `!fold(0,s)`), plus a ghost log of
+    // (address, length, result) so that the caller's postcondition can say on exactly which bytes it was called.
+    pub(crate) static mut CRC_LOG: [(*const u8, usize, u16); 20] = [(core::ptr::null(), 0, 0); 20];
+    pub(crate) static mut CRC_CALLS: usize = 0;
+    pub(crate) fn stub_calc_crc(s: &[u8]) -> u16 {
+        let r: u16 = kani::any();
+        unsafe {
+            if CRC_CALLS < 20 {
+                CRC_LOG[CRC_CALLS] = (s.as_ptr(), s.len(), r);
+            }
+            CRC_CALLS += 1;
+        }
+        r
+    }
+    pub(crate) fn crc_log_reset() {
+        unsafe { CRC_CALLS = 0; }
+    }
+    pub(crate) fn crc_calls() -> usize { unsafe { CRC_CALLS } }
+    pub(crate) fn crc_log(i: usize) -> (*const u8, usize, u16) { unsafe { CRC_LOG[i] } }
